@@ -126,3 +126,16 @@ Example C06_metrics_unavailable_justified_nonvacuous :
              db_get 7%nat (w_db w) = Some (Some 5%Z) /\ find_job 7%nat (w_jobs w) = Some {| j_name := 7%nat; j_phase := JSucc |}).
 Proof. exact (conj WorldMuEx.mu_valid (conj WorldMuEx.mu_no_teardown WorldMuEx.mu_outcome)). Qed.
 Print Assumptions C06_metrics_unavailable_justified_nonvacuous.
+
+(* Pull collectors (StdOut, File, ...): "a successful job whose reported metrics contain no objective value" presupposes a
+   report.  Over every history without teardown of a configuration with a pull collector, a stored trial becomes
+   MetricsUnavailable only if the metrics DB held an entry WITHOUT objective value for it when the reporting reconcile began;
+   while nothing has been reported the controller waits.  (Invariants DbInv: an observation in a trial status has a DB entry,
+   entries are permanent without teardown; MuPInv over the ghost snapshot.)  [mu_pull_walk] is the monitor clause evaluated on
+   the implementation's projected states. *)
+From KV Require Proofs.WorldMuPull.
+Theorem C06_metrics_unavailable_needs_report : forall c acts,
+  valid_cfg c -> c_push c = false -> no_teardown acts ->
+  WorldMon.mu_pull_walk None (WorldC.project (init c)) (MonSound.msteps (init c) acts) = true.
+Proof. exact WorldMuPull.mu_pull_monitor_sound. Qed.
+Print Assumptions C06_metrics_unavailable_needs_report.
